@@ -112,7 +112,7 @@ func TestProp(t *testing.T) {
 	env := vh.GetEnv()
 	rep := vh.NewReport("C20", "exploration")
 	rep.Rule("cases stride over the product (request-controlled position x wire variant x HTML/JSON accept x payload class); the payload instance is drawn per case from the class (random member, random case flips, random fragment mixes) around a unique alphanumeric marker. Every case renders the page twice: hostile payload and its benign twin (same bytes with every HTML-significant byte neutralised). distinct = (position, variant, accept, payload class, status, page kind, reached) of cases whose response was a page or JSON body of sso")
-	rep.Assume("x/net/html's tokenizer and tree builder read a page the way a browser does (HTML5 algorithm); pages are decoded as UTF-8 (the responses declare charset=utf-8: counted)")
+	rep.Assume("x/net/html's tokenizer and tree builder read a page the way a browser does (HTML5 algorithm); a page that declares UTF-8 (BOM, Content-Type charset, or <meta> in the first 1024 bytes) is decoded as UTF-8; a page that does not is additionally read through hand-written WHATWG-style ISO-2022-JP and lenient UTF-7 decoders, standing in for a sniffing browser")
 	rep.Assume("the benign twin (letters, digits, bytes >= 0x80, and % . - _ ~ : / ? # @ + ; , only; controls mapped to 0x01) cannot itself change page structure")
 	rep.Assume("provider error strings are exercised through the real Authenticator mounted on a scripted provider (auth.NewAuthenticator + SetProvider), because the Okta provider only emits fixed error values and encoding/json syntax errors")
 
@@ -303,11 +303,13 @@ func runCase(rep *vh.Report, c *ctx, i int, cl cell, pc payloadClass, r *rand.Ra
 	kc.Kind = kind
 	rep.Count("kind."+kind, 1)
 	rep.Count("html_pages_tokenised", 1)
-	if strings.Contains(strings.ToLower(hct), "charset=utf-8") {
-		rep.Count("html_charset_utf8_in_header", 1)
+	declared, declSrc := declaredCharset(hct, hr.Body)
+	if declared == "" {
+		rep.Count("html_declared_charset.none", 1)
 	} else {
-		rep.Count("html_without_charset_in_header", 1)
+		rep.Count("html_declared_charset."+declared+".by-"+declSrc, 1)
 	}
+	utf8Declared := declared == "utf-8"
 	if hv.TokErr != "" {
 		rep.Count("tokenizer_error", 1)
 	}
@@ -334,6 +336,15 @@ func runCase(rep *vh.Report, c *ctx, i int, cl cell, pc payloadClass, r *rand.Ra
 		}
 	}
 	rep.Distinct(strings.Join([]string{pos.name, cl.variant, fmt.Sprint(cl.json), pc.name, strconv.Itoa(hr.Status), kind, fmt.Sprint(reached)}, "|"))
+	if reached && !utf8Declared {
+		// a page that shows request-controlled text and leaves its encoding to the browser's sniffing (or declares a
+		// legacy one) is open to ISO-2022-JP / UTF-7 style encoding confusion: the text is no longer inert
+		rep.Count("html_reflecting_page_without_utf8_declaration", 1)
+		kc.Detail = fmt.Sprintf("Content-Type %q, declared charset %q (BOM / Content-Type charset parameter / <meta> in the first 1024 bytes)", hct, declared)
+		kc.BodyClip = excerptAround(hr.Body, hNeedles[0])
+		sig := "html-page-without-declared-utf8-charset page=" + kind
+		rep.Violate("c20", i, sig, fmt.Sprintf("%s: %s (position %s, variant %s, payload class %s)", sig, kc.Detail, pos.name, cl.variant, pc.name), kc)
+	}
 	if i%97 == 0 && reached {
 		rep.Sample(kc)
 	}
@@ -389,6 +400,36 @@ func runCase(rep *vh.Report, c *ctx, i int, cl cell, pc payloadClass, r *rand.Ra
 		if !tv.Occ[o] {
 			rep.Count("occurrence_not_in_twin", 1)
 			violate("payload-marker-outside-text-and-own-attribute-value", kind, "marker occurs at "+o+" where the benign render has none (benign: "+strings.Join(sortedKeys(tv.Occ), " ")+")", hNeedles[0])
+		}
+	}
+	if utf8Declared {
+		return
+	}
+	// no (UTF-8) declaration: read both renders the way a sniffing browser may and compare again
+	for _, enc := range sniffDecodings(declared) {
+		rep.Count("html_compared_under_sniffed_encoding."+enc, 1)
+		hd := analyse(decodeAs(enc, hr.Body), hNeedles, "")
+		td := analyse(decodeAs(enc, tr.Body), tNeedles, "")
+		d := firstDiff(hd.Skel, td.Skel)
+		if d == "" && hd.Tree != td.Tree {
+			d = "token skeletons agree but html.Parse builds a different element tree"
+		}
+		var bad []string
+		for _, b := range sortedKeys(hd.Bad) {
+			if !td.Bad[b] {
+				bad = append(bad, where(b))
+			}
+		}
+		if d == "" && len(bad) > 0 {
+			d = "same skeleton"
+		}
+		if d != "" {
+			if len(bad) > 0 {
+				d += "; marker found in " + strings.Join(bad, ", ")
+			}
+			rep.Count("skeleton_mismatch_under_sniffed_encoding", 1)
+			violate("html-token-skeleton-differs-from-benign-render-when-decoded-as-sniffed-encoding", kind, "decoded as "+enc+": "+d, hNeedles[0])
+			return
 		}
 	}
 }
